@@ -451,6 +451,7 @@ def finish(ctx, proof, audit, res, regen_errors, level='proof', extra_assumption
             except Exception:
                 pass
         json.dump({'property': pid, 'kind': 'oracle', 'signature': sig, 'what': f.get('what', ''),
+                   'details': json.loads(json.dumps({k: v for k, v in f.items() if k not in ('case', 'signature', 'what')}, default=str)),
                    'case': case, 'shrunk': shrunk, 'original_case': f['case'] if shrunk else None,
                    'seed': ctx.seed, 'tier': ctx.tier}, open(path, 'w'), indent=1)
         violations.append((path, False))
@@ -506,6 +507,8 @@ def finish(ctx, proof, audit, res, regen_errors, level='proof', extra_assumption
         'violations': len(violations),
     }
     ev['coverage'].update(res.extra)
+    if res.disagreements:
+        ev['coverage']['first_disagreements'] = json.loads(json.dumps(res.disagreements[:3], default=str))
     if ev['coverage']['discharged'] < 1 or ev['coverage']['obligations'] < 1:
         # nothing was proved in this run (a broken dependency): the schema's proof keys demand >= 1, so the
         # counts are reported under other names and the exploration counts carry the evidence
